@@ -78,7 +78,7 @@ def main(pid, tier, seed):
                     if g['k'] == 'plain':
                         strings.extend(pcfg.grammar[t][i]['values'])
                 tid += 1
-                etraces.append({'tid': tid, 'kind': 'pt', 'groups': groups, 'lines': [expand.cps(s) for s in lines], 'count': n})
+                etraces.append({'tid': tid, 'kind': 'pt', 'rp': 0, 'pp': 0, 'groups': groups, 'lines': [expand.cps(s) for s in lines], 'count': n})
                 meta[tid] = {'ruleset': desc, 'flags': flags, 'pt': pt, 'check': 'prince pre-terminal product'}
             # --size N
             full = wordlist(ptq.load_pcfg(d, folder='Prince', **flags), None)
